@@ -9,16 +9,17 @@
 #include "../apps/appnode.h"
 #include <rtosc/miditable.h>
 #include <deque>
+#include <memory>
 #include <map>
 #include <set>
 
 using namespace sim;
 
 enum { ST_RUNS, ST_OPS, ST_BACKEND, F_DELAY_A, F_DELAY_B, F_OVERTAKE, F_UNSAFE_MODE,
-       P_ASSIGNED, P_DRIVEN, P_FINE, P_UNBOUND_SILENT, P_UNMAP_STOPS, P_QUEUE2, P_RELEARN, P_CLEAR, P_PAIR, P_CLOSING_LEARN, P_STALE_GEN_DRIVE, P_DUP_REQUEST, P_FOREIGN_POP, P_PENDING_LEAK, P_FINE_WEIGHT, P_VALUE_MEMORY, P_UNMAP_OTHER, ST_N };
+       P_ASSIGNED, P_DRIVEN, P_FINE, P_UNBOUND_SILENT, P_UNMAP_STOPS, P_QUEUE2, P_RELEARN, P_CLEAR, P_PAIR, P_CLOSING_LEARN, P_STALE_GEN_DRIVE, P_DUP_REQUEST, P_FOREIGN_POP, P_PENDING_LEAK, P_FINE_WEIGHT, P_VALUE_MEMORY, P_UNMAP_OTHER, P_OWN_PORTS, ST_N };
 static const char *STAT_NAMES[ST_N] = { "runs", "ops", "backend_messages", "fault.delayed_delivery_nrt_to_rt", "fault.delayed_delivery_rt_to_nrt", "fault.user_or_midi_event_overtakes_message_in_flight", "runs.trigger_patterns_of_known_findings_allowed",
        "probe.controller_assigned_to_oldest_request", "probe.bound_controller_drives", "probe.fine_controller_learned", "probe.unassigned_controller_silent", "probe.unmapped_controller_silent", "probe.two_requests_queued", "probe.relearn_of_bound_address", "probe.clear",
-       "probe.monotonic_pair", "probe.closing_phase_learn", "probe.drive_under_stale_generation", "trigger.duplicate_use_cc_request", "trigger.bind_pops_foreign_pending", "trigger.pending_leak_after_clear", "probe.coarse_fine_composition_checked", "probe.same_input_seen_again", "probe.pair_value_survives_unmap_of_other_address" };
+       "probe.monotonic_pair", "probe.closing_phase_learn", "probe.drive_under_stale_generation", "trigger.duplicate_use_cc_request", "trigger.bind_pops_foreign_pending", "trigger.pending_leak_after_clear", "probe.coarse_fine_composition_checked", "probe.same_input_seen_again", "probe.pair_value_survives_unmap_of_other_address", "runs.realtime_half_wired_through_its_port_constructors" };
 
 enum { U_MAP = 0, U_UNMAP, U_CLEAR, M_CC, M_PAIR, D_A, D_B };
 static const char *ADDR[] = {"/pi", "/pf", "/pi_neg", "/pf_unit", "/pi7", "/sub/sf", "/odd/vol"};
@@ -46,7 +47,7 @@ struct MidiWorld : World {
     }
     std::vector<Op> simpler(const Op &op) const override { std::vector<Op> v; if (op.kind == M_PAIR) { Op o = op; o.kind = M_CC; v.push_back(o); } if (op.kind == M_CC && op.a[1] != 64) { Op o = op; o.a[1] = 64; v.push_back(o); } if (op.kind == U_MAP && (op.a[1] & 1)) { Op o = op; o.a[1] = 0; v.push_back(o); } return v; }
     void gen(const std::string &, Rng &kr, Rng &pr, Knobs &k, Plan &p) override {
-        k.assign(4, 0); k[0] = 2 + kr.below(3); k[1] = 2 + kr.below(5); k[2] = kr.chance(0.5); /* (the knob used to gate the triggers of two known findings; both are repaired, half of the runs overtake freely now) */ k[3] = kr.below(NADDR);
+        k.assign(5, 0); k[4] = kr.chance(0.4); k[0] = 2 + kr.below(3); k[1] = 2 + kr.below(5); k[2] = kr.chance(0.5); /* (the knob used to gate the triggers of two known findings; both are repaired, half of the runs overtake freely now) */ k[3] = kr.below(NADDR);
         int na = (int)k[0], nc = (int)k[1]; int n = 1 + (int)pr.below(g_tier ? 100 : 40);
         double w_user = 0.15 + 0.2 * pr.unit(), w_midi = 0.25 + 0.3 * pr.unit(), w_del = 0.2 + 0.4 * pr.unit(); double tot = w_user + w_midi + w_del;
         for (int i = 0; i < n; i++) { Op o; double u = pr.unit() * tot;
@@ -61,6 +62,8 @@ struct MidiWorld : World {
         int na = (int)std::max<int64_t>(1, std::min<int64_t>(k.size() > 0 ? k[0] : 2, NADDR)); bool unsafe = k.size() > 2 && k[2]; if (unsafe) stat_add(F_UNSAFE_MODE); int a0 = k.size() > 3 ? (int)(((k[3] % NADDR) + NADDR) % NADDR) : 0;
         auto &L = app::leaves(); app::Node node; node.check = false;
         rtosc::MidiMappernRT *nrt = new rtosc::MidiMappernRT; rtosc::MidiMapperRT *rt = new rtosc::MidiMapperRT; nrt->base_ports = &app::App::ports;
+        // 40 % of the runs wire the realtime half the older way: a table built from its (deprecated) per-object port constructors
+        std::unique_ptr<rtosc::Ports> own_ports; if (k.size() > 4 && k[4]) { own_ports.reset(new rtosc::Ports{rt->addWatchPort(), rt->removeWatchPort(), rt->bindPort()}); stat_add(P_OWN_PORTS); }
         std::deque<Msg> chA, chB; std::vector<std::vector<char>> backend; char b[500];
         // ---- model
         BindMap mb; std::deque<std::pair<std::string, bool>> mq; BindMap gen;                 // nRT bindings, learn queue, RT's current generation
@@ -121,9 +124,9 @@ struct MidiWorld : World {
                 // a snapshot retires exactly the pending controllers it maps
                 for (auto it = rt_pending.begin(); it != rt_pending.end();) { std::string a_; bool c_; if (id_owner(x.snap, *it, a_, c_) > 0) it = rt_pending.erase(it); else ++it; }
                 gen = x.snap; } else if (!strcmp(m, "/midi-learn/midi-add-watch")) rt_watch++;
-            else if (!strcmp(m, "/midi-learn/midi-remove-watch")) { if (rt_watch > 0) rt_watch--; }   // a dropped request gives its watch back
-            else if (!strcmp(m, "/midi-learn/midi-unuse-CC")) { int id_ = rtosc_argument(m, 0).i; for (auto it = rt_pending.begin(); it != rt_pending.end(); ++it) if (*it == id_) { rt_pending.erase(it); break; } }   // nobody waited for the reported controller
-            rtosc::RtData d; d.obj = rt; char loc[128] = ""; d.loc = loc; d.loc_size = sizeof loc; rtosc::MidiMapperRT::ports.dispatch(m + strlen("/midi-learn/"), d); };
+            else if (!strcmp(m, "/midi-learn/midi-remove-watch") && !rtosc_narguments(m)) { if (rt_watch > 0) rt_watch--; }   // a dropped request gives its watch back
+            else if (!strcmp(m, "/midi-learn/midi-unuse-CC") || !strcmp(m, "/midi-learn/midi-remove-watch")) { int id_ = rtosc_argument(m, 0).i; for (auto it = rt_pending.begin(); it != rt_pending.end(); ++it) if (*it == id_) { rt_pending.erase(it); break; } }   // nobody waited for the reported controller
+            rtosc::RtData d; d.obj = rt; char loc[128] = ""; d.loc = loc; d.loc_size = sizeof loc; (own_ports ? *own_ports : rtosc::MidiMapperRT::ports).dispatch(m + strlen("/midi-learn/"), d); };
         auto deliver_B = [&]() { if (chB.empty()) return; Msg x = chB.front(); chB.pop_front(); if (x.use_id < 0) return; int id = x.use_id;
             std::string a; bool c; bool dup = id_owner(mb, id, a, c) > 0;
             if (mq.empty()) { last_from_assign = false; nrt->useFreeID(id); check_nrt_view("use-CC with nothing queued"); return; }   // nothing to assign; whether the controller stays learnable is judged in the closing phase
